@@ -43,8 +43,8 @@ pub fn property() -> Property {
             },
             Part {
                 name: "mates",
-                quick: 2_000,
-                thorough: 40_000,
+                quick: 24_000,
+                thorough: 160_000,
                 single_shard: false, supplementary: false,
                 run: |cfg| run_part(cfg, (gen::raw_pos_endgames(), 0..3u8), |(r, k)| MateCase { fen: gen::position(r, ClockDomain::EngineQuiet).fen(), probe_depth: [1, 3, 5][*k as usize] }, check_mates),
                 replay: |v| replay_case::<MateCase, _>(v, check_mates),
